@@ -273,7 +273,7 @@ def render_join(j, ctx):
         if swapped:
             l, r = r, l
         parts.append('%s %s %s' % (l, eq, r))
-    return '%s %s ON %s' % (j['type'], j['table'], ' AND '.join(parts))
+    return '%s %s ON %s' % (j['type'], (j.get('table_py') or j['table']), ' AND '.join(parts))
 
 
 def clauses(q, ctx, lang):
@@ -440,6 +440,9 @@ def respell(q, ctx, rng, lang='py'):
                 p[3] = not p[3]      # swapped sides only for field keys (NR / aNR stay on the left)
         if rng.random() < 0.3:
             j['table'] = 'B' if j['table'] == 'b' else 'b'
+        if lang == 'py' and rng.random() < 0.15:
+            # a table id of the caller's registry (Python leg: the probe registry knows these ids): not ASCII, longer once upper-cased
+            j['table_py'] = rng.choice(['stra\u00dfe', 'ma\u00dfgr\u00f6\u00dfe.csv', '\ufb03les/\u01f0oin', 'B\u00df', '\u0130d.tbl'])
 
     def swap_spelling(e):
         if isinstance(e, list):
